@@ -491,7 +491,7 @@ func asmObligations(st *Symtab, path string) ([]*Obligation, []string, error) {
 		env := &SpecEnv{ex: ex, cur: s, old: s, vars: vars}
 		var pre []Term
 		for _, r := range ct.Requires {
-			pre = append(pre, env.evalBool(r.Expr))
+			pre = append(pre, env.evalAssume(r.Expr))
 		}
 		for pi, pth := range paths {
 			env2 := &SpecEnv{ex: ex, cur: s, old: s, vars: vars, results: []Value{IntV{T: pth.ret, W: 64, Signed: true}}}
@@ -500,7 +500,7 @@ func asmObligations(st *Symtab, path string) ([]*Obligation, []string, error) {
 				if label == "" {
 					label = fmt.Sprintf("ensures#%d", i+1)
 				}
-				g := env2.evalBool(e.Expr)
+				g := env2.evalProve(e.Expr)
 				o := &Obligation{Name: fmt.Sprintf("A/%s[amd64.s]/path%d/%s", f.name, pi+1, label), Func: f.name + " (node16_amd64.s)", Kind: "ensures", Pos: "node16_amd64.s",
 					Assume: append(append([]Term{}, pre...), pth.pc...), Goal: g, Note: e.Src}
 				obs = append(obs, o)
